@@ -129,11 +129,13 @@ def cases(jobs, quick=True):
     for (j, tag, make, start, b) in plans:
         ss = sizes(start)
         wide = {ss[2], ss[5] if len(ss) > 5 else ss[-1], ss[-1]}          # first uncached size, one scratch-buffer boundary, the long one
-        for n in ss:
+        # the CONTROL of the group comes first: the same transformation with 1000 bytes (inside the cache on every route).  When the reference
+        # route reads the base file out of the control but not out of a big member, the big skip itself went wrong on the seekable routes.
+        for n in [1000] + ss:
             nb = make(b, n)
             if nb is None:
                 continue
-            c = dict(j=j, tag="%s%d" % (tag, n), hex=nb.hex(), name="%s+%s%d" % (j["name"], tag, n), bigskip=True)
+            c = dict(j=j, tag="%s%d" % (tag, n), hex=nb.hex(), name="%s+%s%d" % (j["name"], tag, n), bigskip=True, group="%s+%s" % (j["name"], tag), control=(n == 1000))
             c["routes"] = ["vio"] + (["path", "fd1", "fdemb:37:9"] if n in wide and j["f"].major in (0x01, 0x13, 0x02, 0x03) else [])
             c["pipes"] = ["pipe"] + (["pipe:4096"] if n in wide else [])
             out.append(c)
